@@ -134,6 +134,14 @@ def mutants(tg, parent, rng, tags=('C01', 'C02', 'C05', 'struct')):
             add('spend-own-reward-in-block', 'C01', [t3], cb=cb0)
         add('duplicate-transaction', 'C01', [t1, t1])
 
+    # an output paying a 64-byte "public key" that is not a curve point: verification raises inside the ecdsa library
+    # (not a validation error); the block must still be refused without a trace
+    bad_pk = [(r, vo) for r, vo in sorted(parent.utxo.items()) if vo[1] == chaingen.MALFORMED_PK]
+    if bad_pk:
+        r0, vo0 = bad_pk[0]
+        add('spend-output-with-malformed-key', 'C01',
+            [mk_tx([(r0[0], r0[1], ('sig', bytes(64)))], [(vo0[0], keys.pks[1])])])
+
     # ---- C02: value rules
     add('reward-plus-one', 'C02', [], reward=sub + 1)
     if avail:
